@@ -561,6 +561,24 @@ impl<'ast, 'r, 'a> Visit<'ast> for Collector<'r, 'a> {
                 self.rw.log.push(format!("{rule} at {} -> loop {key}", norm(&self.rw.src[rng(e)]).chars().take(50).collect::<String>()));
                 self.edits.push(Edit { range: rng(e), text: t, prio: 0 });
             }
+            // R11: E.fragment().lines().next().map_or(0, str::len)  (length of the rest of E's first line)
+            syn::Expr::MethodCall(m) if m.method == "map_or" && self.rw.on("R11") && m.args.len() == 2 => {
+                let inner = (|| {
+                    let next = is_method(&m.receiver, "next")?;
+                    let lines = is_method(&next.receiver, "lines")?;
+                    let frag = is_method(&lines.receiver, "fragment")?;
+                    Some(&frag.receiver)
+                })();
+                let args_ok = norm(self.rw.text(&m.args[0])) == "0" && norm(self.rw.text(&m.args[1])) == "str::len";
+                match inner {
+                    Some(recv) if args_ok => {
+                        let r = self.render(recv);
+                        self.rw.log.push("R11 .fragment().lines().next().map_or(0, str::len) -> __first_line_len".to_string());
+                        self.edits.push(Edit { range: rng(e), text: format!("__first_line_len(&{r})"), prio: 0 });
+                    }
+                    _ => visit::visit_expr(self, e),
+                }
+            }
             // R5: E.replace('c', S)
             syn::Expr::MethodCall(m) if m.method == "replace" && self.rw.on("R5") && m.args.len() == 2 => {
                 let is_char = matches!(&m.args[0], syn::Expr::Lit(syn::ExprLit { lit: syn::Lit::Char(_), .. }));
